@@ -10,11 +10,6 @@ package virtual
 
 //@ pred b2i(b bool) := ite(b, 1, 0)
 
-// lockMutatingData returns with f.lock held.
-//@ func (*fileBackedFile).lockMutatingData
-//@   props C14 C16
-//@   lockeffect f.lock +1
-
 // getAndLockIfDirectory works on a LockPile borrowed from its caller: every
 // lock it acquires or releases goes through that pile, so the caller's
 // deferred UnlockAll releases exactly what is held.
